@@ -79,7 +79,7 @@ structure Frame where
   deriving DecidableEq, Repr
 
 def Frame.ofOutPkt (p : Pipeline.OutPkt) : Frame :=
-  ⟨p.ts, p.srcMac, p.dstMac, p.src, p.dst, p.ipv6, .tcp p.flags p.seq p.ack, p.payload⟩
+  ⟨p.ts, p.srcMac, p.dstMac, p.src, p.dst, p.ipv6, if p.udp then .udp else .tcp p.flags p.seq p.ack, p.payload⟩
 
 /-- quic_output_builder.py 54-109: how a datagram of `QUICOutputbuilder.build` (`Quic.UdpOut.build`) is addressed — from
     the server: server MAC/IP/exported port → client's; otherwise the other way round (all four branches, and the
